@@ -54,8 +54,10 @@ EXHAUSTIVE = False
 MAX_REPORTS = 40
 ASSUMPTIONS = ["a call is a hang when it runs > 3 s or the heap exceeds 768 MiB (goexec watchdog), confirmed by one re-run in a fresh process",
                "memory/time bounds are observed, not proved (DESIGN section 10); read-only = input snapshot compared after the call",
-               "model side of the tot.* ops: calls without a model (String(), Format(), fmt printing, the SCTE-35 state tracker at the end of scte.new, "
-               "psi.CanBuildPMT) are run on the real side only; Exec/TotExec.v names them per group",
+               "model side of the tot.* ops: the printers (String(), Format(), fmt %v / Sprint of a result) are modelled by the index / slice / decoder "
+               "operations they perform (Model/Printers.v), not by their text; fmt's rule 'call Error()/String() when the operand has one, else print the "
+               "fields by reflection' is transcribed there and trusted; fmt's recovery of a panicking String() is not modelled (the model panics where "
+               "the method would) and goexec calls every nested String() directly as well",
                "cli/parsefile.go: the binary is built from a copy of the tree and run with a 5 s timeout and a 4 GiB address-space limit; a panic is "
                "recognised from stderr ('panic:' / 'goroutine '); its explicit panic(err) on a ReadPMT error is a pending finding (notes/findings/C05-cli.md) "
                "printed as KNOWN-FINDING"]
@@ -368,8 +370,8 @@ LEVEL_TEXT = ("Proof (partial, see level_note): the decoder models live in a Res
               "blow-up or modified input buffer is reported with the input, a difference of outcome class as a correspondence break. "
               "The command-line tool is built and run on mutated transport-stream files.")
 LEVEL_NOTE = ("Partial: time/memory bounds and non-modification of caller buffers are runtime observations (goexec watchdog and "
-              "snapshots), not theorems; printers (String/Format), the state tracker at the end of scte.new and the cli binary "
-              "have no model and rest on the malformed-input run alone. Trusted: Coq kernel, model transcription, executor glue, Go runtime.")
+              "snapshots), not theorems; the text produced by the printers and the cli binary have no model (the printers' panic-relevant "
+              "operations, psi.CanBuildPMT and the state-tracker calls at the end of scte.new are modelled and proved total: Properties/C05Tot.v). Trusted: Coq kernel, model transcription, executor glue, Go runtime.")
 TECHNIQUE = "Coq totality theorems over Res-monad models (no Panic/Diverge for all inputs) + malformed-input differential run of every real entry point against the model op of the same name + cli binary on mutated files"
 
 
